@@ -9,7 +9,7 @@ from dask.highlevelgraph import HighLevelGraph
 from ._blocks import BlockAssembler
 from .gcp import GCPGeoBox
 from .geobox import GeoBox, GeoboxTiles
-from .warp import Nodata, Resampling, _rio_reproject, resampling_s2rio
+from .warp import Nodata, Resampling, resampling_s2rio, rio_reproject
 
 
 def resolve_fill_value(dst_nodata, src_nodata, dtype):
@@ -56,7 +56,7 @@ def _do_chunked_reproject(
         src = ba.extract(src_nodata, dtype=dtype, casting=casting, roi=src_roi)
         dst_roi = ba.with_yx(src_roi, np.s_[:, :])
 
-        _ = _rio_reproject(
+        _ = rio_reproject(
             src,
             dst[dst_roi],
             src_gbox,
